@@ -35,7 +35,8 @@ SEPS = {"crlf": "\r\n", "lf": "\n", "cr": "\r", "none": "", "blank": " "}
 CODECS = {"ISO-8859-1": "latin_1", "1252": "cp1252", "NONE": "utf_8"}
 # utf_8: also text that is NOT in Unicode normal form C (decomposed accent, Angstrom / Ohm / Kelvin signs, conjoining jamo, a
 # compatibility ideograph, a musical symbol that NFC decomposes): "exactly the body text" means no normalisation either
-SPECIALS = {"latin_1": "éÿ¡©ü", "cp1252": "€’…œé", "utf_8": ["€", "é", "汉", "😀", "’", "ÿ", "e\u0301", "\u212b", "\u2126", "\u212a", "\u1100\u1161", "\uf900", "\U0001d15e", "a\u0323\u0307"]}
+# latin_1 incl. C1 controls: the code points where latin-1 and cp1252 disagree
+SPECIALS = {"latin_1": "éÿ¡©ü\x80\x91\x9f", "cp1252": "€’…œé", "utf_8": ["€", "é", "汉", "😀", "’", "ÿ", "e\u0301", "\u212b", "\u2126", "\u212a", "\u1100\u1161", "\uf900", "\U0001d15e", "a\u0323\u0307"]}
 UIDCHARS = "ABCXYZabcxyz0189_-"
 KEYWORD_UIDS = ["NEWFILEUID", "OLDFILEUID", "xNEWFILEUIDx", "OFXHEADER", "VERSION", "CHARSET", "ENCODING", "OFX", "xml", "100"]
 
@@ -178,6 +179,16 @@ def check(ctx, data, kind, F, body, tree, feat):
                 f.write(data)
             root = t.parse(path)
             ctx.count("parsed_by_filename")
+        elif ctx.evaluations % 7 == 3:
+            # ... and through an open binary file object with a tiny buffer (reads arrive in small pieces)
+            path = os.path.join(ctx.scratch, "c05-input2.ofx")
+            with open(path, "wb") as f:
+                f.write(data)
+            with open(path, "rb", buffering=16) as f:
+                root = t.parse(f)
+                if f.closed:
+                    ctx.violation("source/callers-file-closed-by-parse", "OFXTree.parse closed a file object the caller had opened", case)
+            ctx.count("parsed_from_open_file_object")
         else:
             root = t.parse(io.BytesIO(data))
         if ref_sgml.from_etree(root) != tree:
@@ -188,8 +199,8 @@ def check(ctx, data, kind, F, body, tree, feat):
 
 def v1_layouts():
     seps = list(SEPS)
-    gaps = ["", "S", "SS", "SSS", "mixed", "nl"]
-    return list(itertools.product(seps, [0, 1, 2], [0, 1, 2, 3], gaps, [True, False]))
+    gaps = ["", "S", "SS", "SSS", "mixed", "nl", "S" * 300, "S" * 1500]  # 'any number of blank lines' is also a great many
+    return list(itertools.product(seps, [0, 1, 2, 300], [0, 1, 2, 3], gaps, [True, False]))
 
 
 ENC_PAIRS = [(e, c) for e in ("USASCII", "UNICODE", "UTF-8") for c in ("ISO-8859-1", "1252", "NONE")]
@@ -223,8 +234,8 @@ def run_shard(ctx):
         # covering sample: every value of every dimension several times, plus random combinations
         sample = rng2.sample(layouts, 600)
         for sep in SEPS:
-            for g in ["", "S", "mixed", "nl"]:
-                sample.append((sep, rng2.choice([0, 1, 2]), rng2.choice([0, 1, 2, 3]), g, rng2.random() < 0.7))
+            for g in ["", "S", "mixed", "nl", "S" * 300, "S" * 1500]:
+                sample.append((sep, rng2.choice([0, 1, 2, 300]), rng2.choice([0, 1, 2, 3]), g, rng2.random() < 0.7))
         layouts = sample
     k = 0
     for li, (sepn, cb, leadn, g, comp) in enumerate(layouts):
@@ -275,7 +286,7 @@ def run_shard(ctx):
                 ctx.count("big_bodies")
                 ctx.distinct(("big", kind, codec, align, ctx.shard))
     # v2
-    brs = ["", "\n", "\r\n"]
+    brs = ["", "\n", "\r\n", "\n" * 1500]
     mixes = ["".join(m) for m in itertools.product("\"'", repeat=5)]  # quote style per attribute: 2 uniform + 30 mixed
     v2l = list(itertools.product(['"', "'"], mixes if thorough else ['"', "'"] + rng.sample(mixes[1:-1], 6), brs, brs, [200, 201, 202, 203, 210, 211, 220]))
     reps = 1 if not thorough else 3
